@@ -580,7 +580,14 @@ func runC03(r *Run) {
 	for i, ns := 0, r.N(400, 10000); i < ns; i++ {
 		selChain03Run(r, i)
 	}
-	r.Finish("(1) queries: IDs, names incl. mixed case / root / long, types and classes, flags, with/without OPT of sizes {0..65535}, malformed stream (QR, 0 or 2 questions, answer/authority records, 2 additionals) x scripted plugin outcome (answer with 0..30 records of up to 250 bytes, rcode 0..15 and extended with OPT, none, error, error after a response) x arrival via UDP, TCP, DoH GET, DoH POST; (2) random chains of 1..4 of {cache, redirect, hosts, black_hole, arbitrary, reject, ttl, ecs, prefer_ipv4, fallback, forward_edns0opt} in front of the scripted upstream, each chain queried 1..3 times; (3) two client queries with different IDs for one cached question (fresh entry / expired entry kept by lazy cache), the first held behind the cache until the second was answered; (4) 2..15 pipelined queries on one non-TCP connection through server.ServeTCP + EntryHandler, all answered at the same moment; (5) server.ServeUDP on a loopback socket (bound to 127.0.0.1 or to 0.0.0.0) + EntryHandler + the scripted last plugin of (1): 4..12 bursts from 2..8 client sockets, each socket writing 1..3 datagrams (queries of (1) with distinct IDs, malformed ones, datagrams that are no DNS message) before anything is read, every socket must receive exactly the replies to its own well-formed queries; (6) chains of 0..2 redirect (full / domain rules, nested), prefer_ipv4 or prefer_ipv6 (sometimes both), 0..2 of {ttl, ecs} in random order, half of them with a redirect in front, before a last plugin (sometimes behind fallback) scripted per query type (A / AAAA / other: address records, other records, no record, no response, error, error after a response), 1..3 queries per chain (names matching the rules in mixed case or not, A / AAAA / TXT / random type, well-formed and malformed, UDP / TCP / DoH): own ID and question, rcode within the outcomes the statement allows (own outcome, or the selector's empty answer when the preferred type had an address record); a third of the chains are a sub-sequence invoked as a plugin ($sub, which returns) or by jump, followed in the caller by a rule that answers locally (reject n / hosts / black_hole / arbitrary, sometimes only when there is no response yet); chains of redirect / selector / ttl only (alone, or as $sub / jump sub followed by reject n) are replayed on Model.C03Sel; non-trivial = valid query")
+	// ---------- (7) redirect x cache in any order, one chain asked several names of the redirect graph (alias first and
+	// target later, and vice versa); see c03store.go
+	for i, ns := 0, r.N(300, 8000); i < ns; i++ {
+		storeChain03Run(r, i)
+	}
+	// ---------- (8) DoH GET / POST through real HTTP/1.1 and HTTP/2 servers, POST bodies with and without a Content-Length
+	doh03(r)
+	r.Finish("(1) queries: IDs, names incl. mixed case / root / long, types and classes, flags, with/without OPT of sizes {0..65535}, malformed stream (QR, 0 or 2 questions, answer/authority records, 2 additionals) x scripted plugin outcome (answer with 0..30 records of up to 250 bytes, rcode 0..15 and extended with OPT, none, error, error after a response) x arrival via UDP, TCP, DoH GET, DoH POST; (2) random chains of 1..4 of {cache, redirect, hosts, black_hole, arbitrary, reject, ttl, ecs, prefer_ipv4, fallback, forward_edns0opt} in front of the scripted upstream, each chain queried 1..3 times; (3) two client queries with different IDs for one cached question (fresh entry / expired entry kept by lazy cache), the first held behind the cache until the second was answered; (4) 2..15 pipelined queries on one non-TCP connection through server.ServeTCP + EntryHandler, all answered at the same moment; (5) server.ServeUDP on a loopback socket (bound to 127.0.0.1 or to 0.0.0.0) + EntryHandler + the scripted last plugin of (1): 4..12 bursts from 2..8 client sockets, each socket writing 1..3 datagrams (queries of (1) with distinct IDs, malformed ones, datagrams that are no DNS message) before anything is read, every socket must receive exactly the replies to its own well-formed queries; (6) chains of 0..2 redirect (full / domain rules, nested), prefer_ipv4 or prefer_ipv6 (sometimes both), 0..2 of {ttl, ecs} in random order, half of them with a redirect in front, before a last plugin (sometimes behind fallback) scripted per query type (A / AAAA / other: address records, other records, no record, no response, error, error after a response), 1..3 queries per chain (names matching the rules in mixed case or not, A / AAAA / TXT / random type, well-formed and malformed, UDP / TCP / DoH): own ID and question, rcode within the outcomes the statement allows (own outcome, or the selector's empty answer when the preferred type had an address record); a third of the chains are a sub-sequence invoked as a plugin ($sub, which returns) or by jump, followed in the caller by a rule that answers locally (reject n / hosts / black_hole / arbitrary, sometimes only when there is no response yet); chains of redirect / selector / ttl only (alone, or as $sub / jump sub followed by reject n) are replayed on Model.C03Sel; (7) chains of 1..2 redirect (full / domain rules), 1..2 cache (lazy or not, half of them followed by [has_resp]accept), 0..2 of {ttl, ecs} in random order (two thirds with a redirect in front) before the scripted upstream, 2..5 queries per chain for DIFFERENT names of the chain's redirect rules (sources, targets, sometimes mixed case or another name) with one type / class / flags (sometimes CD flipped), alias first and target later and vice versa, UDP / TCP / DoH: own ID and question; histories over full rules, caches and accept whose upstream always answered are replayed on Model.C03Store; (8) server.HttpHandler + EntryHandler behind net/http servers on loopback (HTTP/1.1, HTTP/2 over TLS): queries and scripted outcomes of (1) by DoH GET and DoH POST, the POST body with a Content-Length or streamed without one (chunked / no content-length header), written in one piece or in pieces of 1..n bytes, oracle of (1), every case also a line for Model.Handler; non-trivial = valid query")
 }
 
 // overlap03: EntryHandler -> [cache, park] with an injected cache entry; query A (id a) is parked behind the cache with
@@ -1006,8 +1013,21 @@ func runC15(r *Run) {
 		via := []string{"udp", "tcp"}[r.Rng.Intn(2)]
 		up := &upstream03{out: out}
 		h := server_handler.NewEntryHandler(server_handler.EntryHandlerOpts{Entry: up})
-		payload, got := deliver03(h, via, q.msg())
-		replyOpt15(r, q, payload, got, map[string]any{"query": q.op(), "arrived_via": via, "upstream_outcome": out.op(), "upstream_opt_followed_by_glue": out.optFirst}, func(uint16) bool { return false })
+		// the client's OPT with any VERSION / extended-rcode byte / Z bits (c15.go): it is an OPT all the same
+		qm, hd := q.msg(), hdr15{}
+		if q.clientOpt() != nil {
+			hd = genHdr15(r)
+			for _, rr := range qm.Extra {
+				if o, ok := rr.(*dns.OPT); ok {
+					hd.apply(o)
+				}
+			}
+			if hd.ver != 0 {
+				r.Count("handler:client-opt-version!=0")
+			}
+		}
+		payload, got := deliver03(h, via, qm)
+		replyOpt15(r, q, payload, got, map[string]any{"query": q.op(), "client_opt_header": hd.String(), "arrived_via": via, "upstream_outcome": out.op(), "upstream_opt_followed_by_glue": out.optFirst}, func(uint16) bool { return false })
 		implOut := "drop"
 		if got {
 			if p, err := parse03(payload); err == nil {
@@ -1020,8 +1040,12 @@ func runC15(r *Run) {
 		if via == "udp" {
 			udp = "1"
 		}
-		r.Line(fmt.Sprintf("reply %s %s %s", udp, q.op(), out.op()), implOut)
-		r.Eval(q.op()+"|"+out.op()+"|"+via, q.clientOpt() != nil || out.hasUp)
+		if hd.zero() {
+			r.Line(fmt.Sprintf("reply %s %s %s", udp, q.op(), out.op()), implOut)
+		} else { // Driver.C15: the same line with the header fields of the client's OPT in front
+			r.Line(fmt.Sprintf("replyx %d %d %d %s %s %s", hd.ver, hd.ext, hd.z, udp, q.op(), out.op()), implOut)
+		}
+		r.Eval(q.op()+hd.op()+"|"+out.op()+"|"+via, q.clientOpt() != nil || out.hasUp)
 		r.Count("handler:" + via)
 		// upstream side
 		for _, uq := range up.seen {
@@ -1061,7 +1085,7 @@ func runC15(r *Run) {
 		keys = append(keys, k)
 	}
 	sort.Strings(keys)
-	r.Finish("client queries without / with one OPT (UDP size {0..65535}, DO, options from {client-subnet, cookie, padding, 65001}) x upstream replies without / with OPT (DO set, any of those options, extended rcode) through the handler alone and through random chains of 1..4 of {cache, ttl, ecs_handler(forward/preset), forward_edns0opt(codes)}, each chain queried 1..3 times (cache hits included); the scripted upstream records the query it is sent; (3) forked sub-queries: a copy of the query context whose OPT is then edited, and fallback with an EDNS0-forwarding plugin in the primary branch only in front of a failing upstream (the secondary upstream records its query); (4) 2..5 successive exchanges for one question (UDP/TCP/DoH) through chains of 1..4 of {forward_edns0opt(codes), ecs_handler, ttl} around one or two caches (lazy or not), every option with a payload of its own: reply and upstream query may only carry options of this very exchange that a plugin forwards explicitly, the upstream's client-subnet option only for a client that sent one (ecs_handler with forward / preset / send), the cache entries (read back after each exchange, and through a dump) never contain an OPT; single-cache chains are replayed on the model (Model.C15.transact); (5) one exchange through forwarding plugins inside both branches of fallback, below dual_selector and below a lazy cache holding an expired entry, every upstream call with option payloads and a marker record of its own, the reply packed only after every started sub-query has returned (gated: secondary before primary with always_standby, slow primary after the secondary): options in the reply only from the upstream answer the reply was made from, forwarded by a plugin on its path, not more often than there are such plugins; replayed on Model.C15.fork when nothing precedes the forking plugin; non-trivial = client or upstream OPT present")
+	r.Finish("client queries without / with one OPT (UDP size {0..65535}, DO, options from {client-subnet, cookie, padding, 65001}; half of the OPTs with VERSION in {1, 2, 255, any}, extended-rcode byte and Z bits set: handler alone and (4)) x upstream replies without / with OPT (DO set, any of those options, extended rcode) through the handler alone and through random chains of 1..4 of {cache, ttl, ecs_handler(forward/preset), forward_edns0opt(codes)}, each chain queried 1..3 times (cache hits included); the scripted upstream records the query it is sent; (3) forked sub-queries: a copy of the query context whose OPT is then edited, and fallback with an EDNS0-forwarding plugin in the primary branch only in front of a failing upstream (the secondary upstream records its query); (4) 2..5 successive exchanges for one question (UDP/TCP/DoH) through chains of 1..4 of {forward_edns0opt(codes), ecs_handler, ttl} around one or two caches (lazy or not), every option with a payload of its own: reply and upstream query may only carry options of this very exchange that a plugin forwards explicitly, the upstream's client-subnet option only for a client that sent one (ecs_handler with forward / preset / send), the cache entries (read back after each exchange, and through a dump) never contain an OPT; single-cache chains are replayed on the model (Model.C15.transact); (5) one exchange through forwarding plugins inside both branches of fallback, below dual_selector and below a lazy cache holding an expired entry, every upstream call with option payloads and a marker record of its own, the reply packed only after every started sub-query has returned (gated: secondary before primary with always_standby, slow primary after the secondary): options in the reply only from the upstream answer the reply was made from, forwarded by a plugin on its path, not more often than there are such plugins; replayed on Model.C15.fork when nothing precedes the forking plugin; non-trivial = client or upstream OPT present")
 }
 
 // fork15: (a) a copied context's query OPT is independent of the original's; (b) fallback{primary: [forwarding plugin,
